@@ -15,7 +15,15 @@
 
   Assumptions, stated where used: a new object's address is non-NULL, 8-aligned and differs from the live managed ones
   (`okOp`, what malloc gives; removals carry no condition: `del(NULL)` is admissible everywhere, also from a destructor
-  during a sweep); sizes as natural numbers (no 2^64 wrap-around); destructors delete but do not allocate managed objects.  `C17_registry_exact` is the history theorem for plain destructors (`noK`); `C17_registry_exact_destructors` /
+  during a sweep); sizes as natural numbers (no 2^64 wrap-around).
+  The destructor language: `K p` = the objects the destructor of `p` deletes (any pointers, in order), `R p` = it then leaves by
+  an exception (`execR` …; `C17_model_without_raise`: with `R = noR` these are the functions of the theorems about `K`).  `K`
+  has no ALLOCATION: a destructor that allocates managed objects during a sweep re-enters GC_Set, whose nested
+  `GC_Mark; GC_Sweep` replaces `freelist` / `freenum` under the running release loop — the table stays consistent (first audit,
+  item 6) but `Exact.pending = #[]` and "every swept object is finalised" (`C17_sweep_destructors`: the trace lists all of
+  `order`) fail there; that case is modelled and refuted in C06 (`Cello/Lifecycle.lean` `gcSet` / `sweepWith`,
+  `C06_dtor_alloc_collect_refuted`, known finding KF-C06-dtor-alloc), not here.
+  `C17_registry_exact` is the history theorem for plain destructors (`noK`); `C17_registry_exact_destructors` /
   `C17_progress_destructors` are its counterpart for destructors that delete other objects (`K`), where the ledger transition
   of a collection is a relation (the order in which the reclaimed objects are finalised is the sweep's slot order) —
   `C17_ledger_choice_irrelevant` shows that every ledger the relation allows has the same members, and `ReachK` carries no
@@ -35,9 +43,14 @@
    * `C17_stopped_window_refuted` — `new` / `del` while the collector is stopped are ignored by the registry (F23); the ledger of
      the property text (`ReachI`, `idealStep`: a function of the history) is met only outside that window
      (`C17_registry_exact_ideal_partial`);
-   * `C17_dealloc_refuted`, `C17_dealloc_reuse_refuted` — `dealloc` / `dealloc_root` (src/Alloc.c) release a registered object
-     without telling the collector: the stale entry stays, and when malloc hands the address out again GC_Set counts it twice
-     and keeps the old root flag (`Reach` covers objects released through `del` / `del_root` / the collector only).
+   * `C17_dealloc_refuted`, `C17_dealloc_reuse_refuted`, `C17_del_raw_managed_refuted` — `dealloc` / `dealloc_root`, and `del_raw`
+     applied to a registered object (src/Alloc.c), release it without telling the collector: the stale entry stays, and when
+     malloc hands the address out again GC_Set counts it twice and keeps the old root flag (`Reach` covers registered objects
+     released through `del` / `del_root` / the collector only; `del_raw` of unregistered ones);
+   * `C17_dtor_raise_refuted` — a destructor that raises inside the release loop of GC_Sweep: the loop is left, the pending
+     list is neither freed nor reset, the objects still listed are neither registered nor finalised (KF-C17-dtor-raise);
+     `C17_sweep_raising_partial` is what holds there (the registry proper stays exact), `C17_rem_raising` covers raising
+     destructors under an explicit `del` (exact, no hypothesis).
 -/
 import Cello.Registry
 import CelloGen.Reg
@@ -52,6 +65,7 @@ import CelloProofs.Lemmas.RegistryKillsHist
 import CelloProofs.Lemmas.RegistryInvB
 import CelloProofs.Lemmas.RegistryOrder
 import CelloProofs.Lemmas.RegistrySpec
+import CelloProofs.Lemmas.RegistryRaise
 
 namespace Cello.Registry
 open RH
@@ -464,6 +478,147 @@ theorem C17_stale_marks_old_refuted :
     rw [e] at this; exact this
   exact ⟨r0, r, hreach, h01, ho, hn⟩
 
+/-! ### destructors that raise (known finding KF-C17-dtor-raise inside the release loop of GC_Sweep) -/
+
+/-- a well-formed state is an exact one -/
+theorem C17_exact_of_wf (r : Reg) (L : Ledger) (hwf : WF gcCfg r L) : Exact gcCfg r L := by
+  refine ⟨wf_mem gcCfg r L hwf, hwf.core.ents, hwf.core.inv.distinct, ⟨wf_count gcCfg r L hwf, hwf.count⟩,
+    hwf.bounded.bounds, hwf.core.inv, ?_, hwf.pend⟩
+  rcases Nat.eq_zero_or_pos r.n with h0 | hn
+  · exact Or.inl h0
+  · exact Or.inr (empty_of_room r hwf.count hn hwf.room)
+
+/-- **The functions the driver runs are the ones the theorems above are about**: with no raising destructor (`noR`) the
+    variants with an exception outcome are `exec` / `gcRem` / `gcSweep` / `gcSet`, for every `K`, fuel, state and command. -/
+theorem C17_model_without_raise (K : Nat → List Nat) :
+    (∀ fuel r cmd, execR gcCfg K noR fuel r cmd = liftR (exec gcCfg K fuel r cmd)) ∧
+    (∀ r x, gcRemR gcCfg K noR r x = liftR (gcRem gcCfg K r x)) ∧
+    (∀ r, gcSweepR gcCfg K noR r = liftR (gcSweep gcCfg K r)) ∧
+    (∀ r p root marks, gcSetR gcCfg K noR r p root marks = liftR (gcSet gcCfg K r p root marks)) :=
+  ⟨execR_noRaise gcCfg K, gcRemR_noRaise gcCfg K, gcSweepR_noRaise gcCfg K, gcSetR_noRaise gcCfg K⟩
+
+/-- **An explicit deletion whose destructors raise leaves an exact registry** (for every `K`, every set `R` of raising
+    destructors, every reachable state): `del` / `del_root` answers; an exception may unwind through GC_Rem_Ptr and GC_Rem
+    (`ex`), skipping GC_Resize_Less and the threshold update and the `dealloc` of every object whose destructor was running;
+    in either case the registry is exact for a sub-ledger — the objects that were unregistered are exactly gone from `mem`,
+    the count, the table — and the pending list is still empty.  (What is lost there is the storage of the objects whose
+    destructor was interrupted: C06's matter, not the registry's.) -/
+theorem C17_rem_raising (K : Nat → List Nat) (R : Nat → Bool) (r : Reg) (L : Ledger) (h : ReachK gcCfg K r L) (x : Nat) :
+    ∃ r' L' t ex, gcRemR gcCfg K R r x = some (r', t, ex) ∧ Exact gcCfg r' L' ∧ (∀ y, y ∈ L' → y ∈ L) ∧
+      r'.running = r.running := by
+  have hwf := reachK_wf gcCfg gcCfg_good K (gcCfg_nullOk K) r L h
+  obtain ⟨r', L', t, ex, he, hw, hsub, _, _, hrun, hps⟩ := gcRemR_safe gcCfg gcCfg_good gcRemPtr_tests_null K R r L hwf.toWFP x
+  have hp : r'.pending = #[] := by
+    have : r'.pending.size = 0 := by rw [hps, hwf.pend]; rfl
+    exact Array.eq_empty_of_size_eq_zero this
+  exact ⟨r', L', t, ex, he, C17_exact_of_wf r' L' (hw.toWF hp), hsub, hrun⟩
+
+/-- … and the same in a state whose pending list an earlier exception left behind (any well-formed state): GC_Rem_Ptr scans
+    the stale words first; the result is again well formed, nothing is added to the list -/
+theorem C17_rem_raising_any_state (K : Nat → List Nat) (R : Nat → Bool) (r : Reg) (L : Ledger) (h : WFP gcCfg r L) (x : Nat) :
+    ∃ r' L' t ex, gcRemR gcCfg K R r x = some (r', t, ex) ∧ WFP gcCfg r' L' ∧ (∀ y, y ∈ L' → y ∈ L) ∧
+      (∀ y, y ∈ pendList r' → y ∈ pendList r) ∧ r'.pending.size = r.pending.size := by
+  obtain ⟨r', L', t, ex, he, hw, hsub, hpsub, _, _, hps⟩ := gcRemR_safe gcCfg gcCfg_good gcRemPtr_tests_null K R r L h x
+  exact ⟨r', L', t, ex, he, hw, hsub, hpsub, hps⟩
+
+/-- the full statement for collections when destructors may raise: after GC_Sweep the pending list is empty and every object
+    of the ledger is still registered or has been finalised -/
+def C17_sweep_raising_statement : Prop :=
+  ∀ (K : Nat → List Nat) (R : Nat → Bool) (r : Reg) (L : Ledger), Reach gcCfg r L →
+    ∀ marks r1 r' t ex, markAll gcCfg r marks = some r1 → gcSweepR gcCfg K R r1 = some (r', t, ex) →
+      r'.pending = #[] ∧ ∀ p b, (p, b) ∈ L → memPtr gcCfg r' p = some true ∨ p ∈ t
+
+/-- **What holds of GC_Sweep when destructors raise** (every `K`, every `R`): the sweep answers; the registry proper — table,
+    `mem`, count, bounds, invariant (`WFP`) — is exact for a sub-ledger `L'` of the survivors; the objects still listed are
+    reclaimed ones (`order`: the unmarked non-roots, each once) and are not registered; if no exception left the release loop
+    the state is `Exact` (pending list empty); if one did, the list keeps all its `order.length` slots (GC_Sweep's
+    `free(gc->freelist); gc->freelist = NULL; gc->freenum = 0` did not run).  Missing for the full statement: exactly
+    `pending = #[]` and "listed ⇒ finalised" in the exception case — false on the code, `C17_dtor_raise_refuted`. -/
+theorem C17_sweep_raising_partial (K : Nat → List Nat) (R : Nat → Bool) (r : Reg) (L : Ledger) (mk : Nat → Bool → Bool)
+    (h : Core gcCfg r L mk) (hc : r.nitems = occ r.slots) (hroom : Room r) (hb : Bounded r L) (hnd : (L.map Prod.fst).Nodup) :
+    ∃ (order : List Nat) (r' : Reg) (L' : Ledger) (t : List Nat) (ex : Bool),
+      gcSweepR gcCfg K R r = some (r', t, ex) ∧ WFP gcCfg r' L' ∧
+      (∀ p, memPtr gcCfg r' p = some (decide (p ∈ L'.map Prod.fst))) ∧ r'.nitems = L'.length ∧
+      (∀ y, y ∈ L' → y ∈ collectBy L mk) ∧
+      (∀ y, y ∈ pendList r' → y ∈ order ∧ memPtr gcCfg r' y = some false) ∧ order.Nodup ∧
+      (∀ p, p ∈ order ↔ ∃ b, (p, b) ∈ L ∧ (p, b) ∉ collectBy L mk) ∧
+      (ex = false → Exact gcCfg r' L') ∧ (ex = true → r'.pending.size = order.length) := by
+  obtain ⟨order, r', L', t, ex, he, hw, hsub, hpsub, hnd2, hmem2, _, hex0, hex1⟩ :=
+    gcSweepR_safe gcCfg gcCfg_good gcRemPtr_tests_null K R r L mk h hc hroom hb hnd
+  have hwf0 : WF gcCfg { r' with pending := #[] } L' :=
+    ⟨hw.core.of_slots rfl HEq.rfl, hw.count, hw.room, ⟨hw.bounded.bounds, hw.bounded.aligned, hw.bounded.zero, hw.bounded.nonnull⟩,
+      hw.nodup, rfl⟩
+  have hmem : ∀ p, memPtr gcCfg r' p = some (decide (p ∈ L'.map Prod.fst)) := fun p => wf_mem gcCfg _ L' hwf0 p
+  refine ⟨order, r', L', t, ex, he, hw, hmem, wfp_count gcCfg r' L' hw, hsub, ?_, hnd2, hmem2, ?_, hex1⟩
+  · intro y hy
+    have hyo := hpsub y hy
+    refine ⟨hyo, ?_⟩
+    rw [hmem y]
+    have : y ∉ L'.map Prod.fst := by
+      intro hin
+      obtain ⟨⟨q, b⟩, hqb, hq⟩ := List.mem_map.1 hin
+      simp only at hq; subst hq
+      obtain ⟨b', hb1, hb2⟩ := (hmem2 q).1 hyo
+      have hc1 := hsub _ hqb
+      have hb' : b' = b := ledger_flag_unique L hnd q b' b hb1 (collectBy_sub L mk _ hc1)
+      subst hb'
+      exact hb2 hc1
+    simp [this]
+  · intro h0
+    have hp := hex0 h0
+    exact C17_exact_of_wf r' L' (hw.toWF hp)
+
+/-- two colliding objects (64 and 104, both at home 3 of 5), nothing marked; the destructor of 104 raises -/
+def raise104 : Nat → Bool := fun p => p == 104
+
+/-- **KF-C17-dtor-raise: a destructor that raises inside the release loop of GC_Sweep leaves the pending list set and loses
+    the objects still listed.**  `new 64; new 104; collect` with nothing reachable: the sweep lists 104 (slot 3: `j >= p`
+    displaced 64 to slot 4) then 64; the destructor of 104 raises; the exception leaves GC_Sweep before
+    `free(gc->freelist); … gc->freenum = 0` — afterwards the pending list is `[NULL, 64]` outside a collection, and 64 is
+    neither registered nor finalised (nor is it ever: the next GC_Sweep overwrites the list).  The C code does the same
+    (harness op `killraise`, corpus/kf_c17_dtor_raise.ops). -/
+theorem C17_dtor_raise_refuted : ¬ C17_sweep_raising_statement := by
+  intro hall
+  have hs : ((step gcCfg Reg.init (.new 64 false [64])).bind (fun r => step gcCfg r (.new 104 false []))).isSome = true := by
+    decide +kernel
+  obtain ⟨r2, h2⟩ := Option.isSome_iff_exists.1 hs
+  obtain ⟨r1, h1, h12⟩ := Option.bind_eq_some_iff.1 h2
+  have hv1 : (step gcCfg Reg.init (.new 64 false [64])).map (fun r => (r.nitems, r.mitems, r.running)) = some (1, 2, true) := by
+    decide +kernel
+  rw [h1] at hv1
+  simp only [Option.map_some, Option.some.injEq, Prod.mk.injEq] at hv1
+  obtain ⟨hni1, hmi1, hrun1⟩ := hv1
+  have hr1 : Reach gcCfg r1 [(64, false)] := by
+    have := Reach.step Reach.init (show okOp [] (.new 64 false [64]) from ⟨by simp, by decide, by decide⟩) h1
+    have e : ledgerStep Reg.init [] (.new 64 false [64]) = [(64, false)] := by decide
+    rw [e] at this; exact this
+  have hr2 : Reach gcCfg r2 [(104, false), (64, false)] := by
+    have := Reach.step hr1 (show okOp [(64, false)] (.new 104 false []) from ⟨by simp, by decide, by decide⟩) h12
+    have e : ledgerStep r1 [(64, false)] (.new 104 false []) = [(104, false), (64, false)] := by
+      simp [ledgerStep, hrun1, hni1, hmi1]
+    rw [e] at this; exact this
+  have hv : (((step gcCfg Reg.init (.new 64 false [64])).bind (fun r => step gcCfg r (.new 104 false []))).bind (fun r =>
+      (markAll gcCfg r []).bind (fun r1 => gcSweepR gcCfg noK raise104 r1))).map
+        (fun x => (x.1.pending.toList, x.2.1, x.2.2, memPtr gcCfg x.1 64)) = some ([none, some 64], [], true, some false) := by
+    decide +kernel
+  rw [h2] at hv
+  simp only [Option.bind_some] at hv
+  cases hm : markAll gcCfg r2 [] with
+  | none => rw [hm] at hv; simp at hv
+  | some rm =>
+    rw [hm] at hv
+    simp only [Option.bind_some] at hv
+    cases hsw : gcSweepR gcCfg noK raise104 rm with
+    | none => rw [hsw] at hv; simp at hv
+    | some res =>
+      obtain ⟨r', t, ex⟩ := res
+      rw [hsw] at hv
+      simp only [Option.map_some, Option.some.injEq, Prod.mk.injEq] at hv
+      obtain ⟨hpend, ht, _, hmem⟩ := hv
+      obtain ⟨hp0, hlost⟩ := hall noK raise104 r2 _ hr2 [] rm r' t ex hm hsw
+      rw [hp0] at hpend
+      simp at hpend
+
 /-! ### excluded region 1: allocation and deletion while the collector is stopped (F23; known finding KF-C17-stopped) -/
 
 /-- the full statement against the ledger of the property text (`idealStep`: every managed allocation adds, every `del`
@@ -529,6 +684,30 @@ theorem C17_dealloc_refuted : ¬ C17_with_dealloc_statement := by
     simpa using this
   have m1 := (C17_registry_exact r1 _ hr1).mem 64
   have m2 := (hall r1 _ hd).mem 64
+  rw [m1] at m2
+  simp at m2
+
+/-- the full statement when `del_raw` may also be applied to a REGISTERED object (the program has released it: the ledger drops
+    it) — the hypothesis `okOp (.delRaw p) := p ∉ L` of `Reach` excludes exactly this -/
+def C17_with_del_raw_managed_statement : Prop :=
+  ∀ (r : Reg) (L : Ledger) (p : Nat) (r' : Reg), Reach gcCfg r L → step gcCfg r (.delRaw p) = some r' →
+    Exact gcCfg r' (L.filter (fun y => y.1 != p))
+
+/-- **`del_raw` of a registered object is the same defect by another entrance** (KF-C17-dealloc-stale): `del_raw` is
+    `dealloc(destruct(self))` without GC_Rem (Alloc.c `del_by`, `case ALLOC_RAW: break;` — shape checked by the translator), so
+    after `p = alloc(T); del_raw(p)` the registry is untouched: `mem(gc, p)` still holds for a released object.  The C code
+    does the same (corpus/kf_c17_dealloc.ops, op `delrawm`; the program then ends in the teardown sweep
+    destructing the freed block). -/
+theorem C17_del_raw_managed_refuted : ¬ C17_with_del_raw_managed_statement := by
+  intro hall
+  obtain ⟨r1, _, hr1⟩ := C17_progress Reg.init [] Reach.init (.new 64 false [64]) ⟨by simp, by decide, by decide⟩
+  have hL1 : ledgerStep Reg.init [] (.new 64 false [64]) = [(64, false)] := by decide
+  rw [hL1] at hr1
+  have hs : step gcCfg r1 (.delRaw 64) = some r1 := by
+    show (exec gcCfg noK (nestFuel r1 + 1) r1 (.fin 64)).map (fun x => x.1) = some r1
+    rw [exec_fin_noK]; rfl
+  have m1 := (C17_registry_exact r1 _ hr1).mem 64
+  have m2 := (hall r1 _ 64 r1 hr1 hs).mem 64
   rw [m1] at m2
   simp at m2
 
